@@ -120,6 +120,9 @@ def cases(tier):
     for kind in VOL:
         for b in ('dict', 'file', 'deepcopy', 'json', 'compile-up', 'compile-down', 'compile-unrelated', 'array', 'name'):
             yield ['workbook', kind, b]
+    for i in range(len(RB_ARGS)):
+        for b in ('parser', 'cell'):
+            yield ['rbargs', i, b]
 
 
 def get_prog(spec):
@@ -331,7 +334,56 @@ def run_workbook(case):
     return result(ex, sorted(oc), fails[:3])
 
 
+RB_ARGS = [('1', '1000', 1, 1000), ('5', '5', 5, 5), ('1.5', '3.5', 2, 3), ('-3', '-1', -3, -1), ('0.2', '1', 1, 1), ('-0.5', '0.5', 0, 0),
+           ('1.2', '1.8', None, None), ('-2.7', '-2.2', None, None), ('2.5', '2.5', None, None), ('3', '1', None, None), ('0.1', '0.9', None, None),
+           ('1', '1.9', 1, 1), ('-1.9', '-1', -1, -1), ('10', '12.99', 10, 12), ('TRUE', '3', 'VALUE', None), ('"a"', '3', 'VALUE', None), ('#N/A', '3', '#N/A', None)]
+
+
+def run_rbargs(case):
+    """RANDBETWEEN over bound pairs: an integer within the bounds, #NUM! when the bounds hold no integer."""
+    _, i, builder = case
+    import numpy as np
+    import formulas
+    from xl.evalcell import classify, eval_formula, exc_name
+    lo, hi, a, b = RB_ARGS[i]
+    text = '=RANDBETWEEN(%s,%s)' % (lo, hi)
+    fails, seen = [], set()
+    desc = dict(kind='RB', builder=builder, formula=text, shape='args')
+    np.random.seed(4242 + i)
+    try:
+        if builder == 'parser':
+            func = formulas.Parser().ast(text)[1].compile()
+            ev = lambda: classify(np.asarray(func(), object).ravel()[0])
+        else:
+            ev = lambda: eval_formula(text)
+        for k in range(40):
+            g = ev()
+            seen.add(g)
+            if a is None:
+                ok = g == ('e', '#NUM!')
+                want = '#NUM! (no integer within the bounds)'
+            elif a == 'VALUE':
+                ok = g == ('e', '#VALUE!')
+                want = '#VALUE!'
+            elif a == '#N/A':
+                ok = g == ('e', '#N/A')
+                want = '#N/A'
+            else:
+                ok = g[0] == 'n' and g[1] == int(g[1]) and a <= g[1] <= b
+                want = 'integer in [%s, %s]' % (a, b)
+            if not ok:
+                fails.append(Fail('randbetween-range', got=g, exp=want, hist='call %d' % k, **desc))
+                break
+    except Exception as e:
+        fails.append(Fail('escape', got=exc_name(e), exp='a value', **desc))
+    if not fails and isinstance(a, int) and b - a >= 2 and len(seen) < 2:
+        fails.append(Fail('frozen-or-wrong-draw', got=sorted(seen), exp='different values over 40 calls', **desc))
+    return result(40, ['rbargs:%s' % ('num' if isinstance(a, int) else a)], fails)
+
+
 def run_case(case):
+    if case[0] == 'rbargs':
+        return run_rbargs(case)
     return run_formula(case) if case[0] == 'formula' else run_workbook(case)
 
 
